@@ -238,7 +238,7 @@ Definition forward_ctrl_with (allow_self hyp_log_first : bool) (cfg : config) (e
 Definition forward_ctrl := forward_ctrl_with false false.
 
 (* keeper/component/forwarder HandlePacket *)
-Definition run_forwarding_with (fctrl : config -> env -> Z -> attrs -> tattr -> M unit) (cfg : config) (e : env)
+Definition run_forwarding_with (fctrl : config -> env -> Z -> attrs -> tattr -> M unit) (cfg : config) (e : env) (lie : Z)
            (proto_paused : Z -> bool) (cc_paused : Z -> string -> bool)
            (f : option forwarding) (t : tattr) : M unit :=
   _ <- lift (forwarding_validate f) ;;
@@ -256,13 +256,13 @@ Definition run_forwarding_with (fctrl : config -> env -> Z -> attrs -> tattr -> 
               else if negb (ccid_valid {| c_proto := f_pid f; c_cp := cp |}) then mfail "invalid destination cross-chain id"
               else if cc_paused (f_pid f) cp then mfail "cross-chain is paused"
               else fun s =>
-                if negb (bal (ps_l s) (cfg_orbiter cfg) (t_ddenom t) =? t_damt t) then PErr "amount mismatch" s
+                if negb (bal (ps_l s) (cfg_orbiter cfg) (t_ddenom t) + lie =? t_damt t) then PErr "amount mismatch" s
                 else if negb (existsb (Z.eqb (f_pid f)) (cfg_fwd_routes cfg)) then PErr "forwarding controller not found" s
                 else fctrl cfg e (f_pid f) a t s
           end
       end
   end.
-Definition run_forwarding := run_forwarding_with forward_ctrl.
+Definition run_forwarding cfg e := run_forwarding_with forward_ctrl cfg e 0.
 
 (* ---------- statistics: keeper/component/dispatcher/stats.go ---------- *)
 (* [strict]: the repaired code adds with SafeAdd (an error, swallowed: statistics not updated);
@@ -392,7 +392,7 @@ Definition result_of (w : world) (o : ostate) (ok : bool) (out : outcome) (s : p
      rr_moves := if ok then rev (ps_moves s) else [] |}.
 
 Definition recv_with (vr : variant) (cfg : config) (acts : Z -> option action_ctrl) (e : env)
-           (w : world) (p : packet) (tape : list bool) : recv_result :=
+           (w : world) (p : packet) (tape : list bool) (lie : Z) : recv_result :=
   let s0 := {| ps_l := w_l w; ps_tape := tape; ps_trace := []; ps_moves := [] |} in
   let o := w_o w in
   let err l s := result_of w o false (OAckErr l) s in
@@ -428,7 +428,7 @@ Definition recv_with (vr : variant) (cfg : config) (acts : Z -> option action_ct
                   let limit := match max_pass o with Some v => v | None => 0 end in
                   if limit <? slen (f_pass f) then err "passthrough payload too large" s0
                   else
-                    let prior := bal (ps_l s0) (cfg_orbiter cfg) (t_ddenom t) in
+                    let prior := bal (ps_l s0) (cfg_orbiter cfg) (t_ddenom t) + lie in
                     let run : M tattr :=
                       _ <- (if 0 <? prior
                             then ext_moving (CSweep (t_ddenom t) prior)
@@ -440,7 +440,7 @@ Definition recv_with (vr : variant) (cfg : config) (acts : Z -> option action_ct
                              "ics20" ;;
                       (* 7. dispatch *)
                       t' <- dispatch_actions acts (fun a => smem cmp_z a (paused_actions o)) (p_pre pl) t ;;
-                      _ <- run_forwarding_with (forward_ctrl_with (v_allow_self vr) (v_hyp_log_first vr)) cfg e
+                      _ <- run_forwarding_with (forward_ctrl_with (v_allow_self vr) (v_hyp_log_first vr)) cfg e lie
                              (fun pid => smem cmp_z pid (paused_protos o))
                              (fun pid cp => smem cmp_cc (pid, cp) (paused_cc o)) (Some f) t' ;;
                       mret t' in
@@ -461,7 +461,10 @@ Definition recv_with (vr : variant) (cfg : config) (acts : Z -> option action_ct
           end
     end.
 
-Definition recv cfg e := recv_with repaired cfg (chain_actions cfg e) e.
-Definition recv_pinned cfg e :=
+(* [lie]: a fault-injection knob of the correspondence harness — every GetBalance answer about the
+   orbiter account is off by [lie]; 0 in every theorem about the real chain. *)
+Definition recv_lie cfg e := recv_with repaired cfg (chain_actions cfg e) e.
+Definition recv cfg e w p tape := recv_lie cfg e w p tape 0.
+Definition recv_pinned cfg e w p tape :=
   recv_with pinned cfg (fun id => if existsb (Z.eqb id) (cfg_action_routes cfg) && (id =? action_fee)
-                                  then Some (fee_ctrl_with (v_fee_overflow pinned) cfg e) else None) e.
+                                  then Some (fee_ctrl_with (v_fee_overflow pinned) cfg e) else None) e w p tape 0.
